@@ -488,6 +488,7 @@ type c01Conn struct {
 	mu       sync.Mutex
 	handlers map[string]bool
 	got      []*client.Line
+	gotBG    []*client.Line
 }
 
 var c01c *c01Conn
@@ -513,11 +514,23 @@ func (cc *c01Conn) ensureHandler(cmd string) {
 		return
 	}
 	cc.handlers[k] = true
-	cc.tc.C.HandleFunc(cmd, func(_ *client.Conn, l *client.Line) {
-		cc.mu.Lock()
-		cc.got = append(cc.got, l)
-		cc.mu.Unlock()
-	})
+	// one foreground and one background handler; each keeps a deep copy of what it was given and then
+	// edits its own line, which must not change what the other one receives
+	rec := func(bg bool) client.HandlerFunc {
+		return func(_ *client.Conn, l *client.Line) {
+			cp := deepCopyLine(l)
+			cc.mu.Lock()
+			if bg {
+				cc.gotBG = append(cc.gotBG, cp)
+			} else {
+				cc.got = append(cc.got, cp)
+			}
+			cc.mu.Unlock()
+			scribble(l)
+		}
+	}
+	cc.tc.C.HandleFunc(cmd, rec(false))
+	cc.tc.C.HandleBG(cmd, rec(true))
 }
 
 func callAccessors(l *client.Line) (text, target string, public bool, panicked interface{}) {
@@ -573,7 +586,7 @@ func runC01(m *c01Msg) *Violation {
 	}
 	cc.ensureHandler(e.Cmd)
 	cc.mu.Lock()
-	cc.got = nil
+	cc.got, cc.gotBG = nil, nil
 	cc.mu.Unlock()
 	cc.tc.conn().SendLine(wire)
 	if !cc.tc.syncIn(stallTimeout()) {
@@ -591,6 +604,19 @@ func runC01(m *c01Msg) *Violation {
 	}
 	if got[0].Time.IsZero() {
 		return violationf("C01", "connection leg: %q delivered with zero Time", wire)
+	}
+	// the background handler for the same verb
+	if !waitCond(stallTimeout(), func() bool { cc.mu.Lock(); defer cc.mu.Unlock(); return len(cc.gotBG) >= 1 && dispatchFrames() == 0 }) {
+		return violationf("C01", "connection leg: background handler for %q never received %q", e.Cmd, wire)
+	}
+	cc.mu.Lock()
+	bg := cc.gotBG
+	cc.mu.Unlock()
+	if len(bg) != 1 {
+		return violationf("C01", "connection leg: background handler for %q received %d lines for %q, want 1", e.Cmd, len(bg), wire)
+	}
+	if v := checkLineAgainst("C01", bg[0], e, "background handler"); v != nil {
+		return v
 	}
 	return nil
 }
